@@ -93,7 +93,9 @@ var keyKinds = []string{KBool, KInt, KInt32, KInt64, KUint, KUint32, KUint64, KS
 func GenType(t *rapid.T, o *Opts) TypeDesc {
 	g := &tgen{t: t, o: o}
 	var d TypeDesc
-	switch pick(t, "top", 55, 8, 7, 9, 10, 4, 7) {
+	switch pick(t, "top", 53, 8, 7, 9, 10, 4, 7, 2) {
+	case 7:
+		d = g.bigStruct()
 	case 0:
 		d = g.structType(0)
 	case 1:
@@ -118,6 +120,38 @@ func GenType(t *rapid.T, o *Opts) TypeDesc {
 		d = g.pointerChain(0)
 	}
 	g.restrictImpl(&d)
+	return d
+}
+
+// bigStruct: a message struct larger than 64 KiB: 0..3 leading fields, a byte
+// array of 65536 / 70000 / 131072 bytes (first field or in the middle), then
+// fields of every kind (scalar, string, bytes, repeated, nested and
+// pointer-to message, map, pointer to scalar, implementer) whose offsets in
+// the Go struct lie beyond 65535.
+func (g *tgen) bigStruct() TypeDesc {
+	d := TypeDesc{K: KStruct}
+	add := func(t TypeDesc) { d.Fields = append(d.Fields, FieldDesc{Num: len(d.Fields) + 1, T: t}) }
+	for n := Uniform(g.t, "bigpre", 4); n > 0; n-- {
+		add(g.fieldType(2))
+	}
+	add(TypeDesc{K: KArray, Len: oneOf(g.t, "biglen", []int{65536, 65536, 70000, 131072})})
+	k, e := leaf(oneOf(g.t, "key", keyKinds)), g.leafType(true)
+	after := []TypeDesc{g.scalar(), leaf(KString), sl(g.scalar()), g.structType(2), ptr(g.structType(2)), {K: KMap, Key: &k, Elem: &e},
+		leaf(KBytes), sl(leaf(KString)), ptr(g.scalar()), g.scalar()}
+	if !g.o.NoImpl {
+		after = append(after, g.impl())
+	}
+	// a rotation of the list so that every kind comes first after the array in turn
+	rot := Uniform(g.t, "bigrot", len(after))
+	for i := range after {
+		add(after[(i+rot)%len(after)])
+	}
+	for n := Uniform(g.t, "bigpost", 3); n > 0; n-- {
+		add(g.fieldType(2))
+	}
+	if rapid.Bool().Draw(g.t, "tagged") {
+		g.tagFields(&d)
+	}
 	return d
 }
 
@@ -810,6 +844,16 @@ func (g *vgen) value(d *TypeDesc, depth int, isKey bool) Recipe {
 		}
 		return Recipe{B: genString(g.t, g.o, "b")}
 	case KArray:
+		if d.Len >= 65536 { // the padding of bigStruct: mostly zero (nothing on the wire), sometimes all 0xFF
+			if Uniform(g.t, "bigfill", 7) != 0 {
+				return Recipe{}
+			}
+			b := make([]byte, d.Len)
+			for i := range b {
+				b[i] = 0xFF
+			}
+			return Recipe{B: b}
+		}
 		if Uniform(g.t, "azero", 4) == 0 {
 			return Recipe{}
 		}
